@@ -44,8 +44,13 @@ RPC_EXEMPT = {'next_from_generator': 'legacy stub: no server binding and no'
 
 
 def run(ctx: Ctx):
-  for r in (r1, r2, r3, r4, r5, r6, r7, r9, r13, r14, r15, r16, r17, r18, r19, r20):
+  for r in (r1, r2, r3, r4, r5, r6, r7, r9, r13, r14, r15, r16, r17, r18, r19, r20, r21):
     ctx.guard(r)
+  from mlmverif.props import c15
+  ctx.include('R-C14-22', '"signal exhaustion once ... rather than returning a wrong value": the end of a prefetched stream is a'
+              ' state every later request reads again; the request handlers never un-install the queue (R-C15-18) — a poll'
+              ' after the end marker otherwise gets the RETRIABLE "Generator is not set" timeout and the client restarts a'
+              ' finished stream', c15.r18, min_instances=4)
   from mlmverif.props import c04
   from mlmverif.props._queue import model as qmodel
   from mlmverif.props import c17
@@ -999,11 +1004,58 @@ def _ancestors(root, node):
     q = pm.get(q)
 
 
+def r21(ctx: Ctx):
+  rule = 'R-C14-21'
+  ctx.rule(rule, '"remote iterators ... yield exactly the underlying elements in order and signal exhaustion once": the end of a'
+           ' remote iterator is signalled OUT OF BAND — the traced `next(<remote iterator>)` carries no default, and'
+           ' RemoteIterator.__next__/__anext__ raise StopIteration/StopAsyncIteration only as the re-raised remote signal,'
+           ' never conditionally on the VALUE they received. With an in-band sentinel (next(it, None) ... `if result is'
+           ' None: raise StopIteration`) an element equal to the sentinel ends the stream early and the generator\'s return'
+           ' value is dropped')
+  ci = ctx.repo.cls(CU, 'RemoteIterator')
+  n = 0
+  for name in ('__next__', '__anext__'):
+    fi = ci.methods.get(name)
+    if fi is None:
+      continue
+    n += 1
+    bad = None
+    for c in ast.walk(fi.node):
+      if (isinstance(c, ast.Call) and isinstance(c.func, ast.Call) and unparse(c.func.func).endswith('trace')
+          and c.func.args and unparse(c.func.args[0]) == 'next' and (len(c.args) != 1 or c.keywords)):
+        bad = (c, f'`{unparse(c)[:70]}` asks the server for next() WITH a default: the default is an in-band end marker')
+    assigned = {t.id for x in ast.walk(fi.node) if isinstance(x, ast.Assign) for t in x.targets if isinstance(t, ast.Name)}
+    pm = parent_map(fi.node)
+    for r_ in ast.walk(fi.node):
+      if isinstance(r_, ast.Raise) and r_.exc is not None and ('StopIteration' in unparse(r_.exc) or 'StopAsyncIteration' in unparse(r_.exc)):
+        q = r_
+        while q in pm:
+          par = pm[q]
+          if isinstance(par, ast.If) and any(isinstance(y, ast.Name) and y.id in assigned for y in ast.walk(par.test)):
+            bad = (r_, f'`{unparse(par.test)}` decides the end of the stream from the received value')
+          q = par
+    what = f'RemoteIterator.{name}: exhaustion is the remote StopIteration, not a sentinel value'
+    if bad:
+      ctx.fail(rule, fi, what, bad[1] + ': an element equal to the sentinel (None) ends the remote stream early, the remaining'
+               ' elements and the return value are never delivered', node=bad[0])
+    else:
+      ctx.ok(rule, fi, what, fi.node)
+  ctx.floor(rule, 2, n)
+
+
 from mlmverif.selfcheck import B, OK  # noqa: E402
 
 _S = 'chainables/courier_server.py'
 _U = 'utils/courier_utils.py'
 VARIANTS = [
+    B('remote-next-with-none-sentinel', 'utils/courier_utils.py',
+      "  def __next__(self) -> _T:\n    return self.iterator.worker.get_result(\n        lazy_fns.trace(next)(self.iterator.value)\n    )",
+      "  def __next__(self) -> _T:\n    result = self.iterator.worker.get_result(\n        lazy_fns.trace(next)(self.iterator.value, None)\n    )\n    if result is None:\n      raise StopIteration()\n    return result", 'R-C14-21'),
+    OK('remote-next-through-a-local', 'utils/courier_utils.py',
+       "  def __next__(self) -> _T:\n    return self.iterator.worker.get_result(\n        lazy_fns.trace(next)(self.iterator.value)\n    )",
+       "  def __next__(self) -> _T:\n    result = self.iterator.worker.get_result(\n        lazy_fns.trace(next)(self.iterator.value)\n    )\n    return result"),
+    B('handler-drops-the-queue-after-the-end-marker', 'chainables/courier_server.py',
+      "        result.append(StopIteration(*self._generator.returned))\n", "        result.append(StopIteration(*self._generator.returned))\n        self._generator = None\n", 'R-C14-22'),
     B('liveness-tested-before-the-delivered-answer', 'utils/courier_utils.py',
       "    while not future.done():\n      if not self.is_alive:\n        raise RuntimeError(f'Worker disconnected: {self}')\n      time.sleep(0)",
       "    while self.is_alive:\n      if future.done():\n        break\n      time.sleep(0)\n    else:\n      raise RuntimeError(f'Worker disconnected: {self}')", 'R-C14-19'),
